@@ -205,6 +205,10 @@ class Notify(Notification):
     def __init__(self, code: int, subcode: int, data: str | bytes | None = None) -> None:
         if data is None:
             data = self._str_subcode.get((code, subcode), 'unknown notification type')
+        # RFC 4271 4.1: no message is longer than 4096 octets. Some refusals quote what the peer sent (a malformed
+        # COMMUNITIES attribute printed octet by octet): a 4 kB attribute made a NOTIFICATION of 32 kB, and a
+        # 64 kB one made pack_message raise struct.error in the send path. The text is cut, the codes say it all.
+        data = data[: 4096 - Message.HEADER_LEN - self.HEADER_SIZE - 1]
         if isinstance(data, (bytes, bytearray)):
             # RFC 4271 6.1 requires the Data field of a Bad Message Length notification to
             # carry the erroneous Length field itself, two octets, not a sentence about it.
